@@ -8,46 +8,46 @@ COMMON = ("Trusted base: Lean 4.33 kernel with axioms propext/Classical.choice/Q
           "check only (harness/drive.c under ASan+UBSan vs the compiled Lean driver, on the generated inputs); contract: NUL-free input stored NUL-terminated, "
           "length == strlen, \"C\" locale, malloc does not fail; libidn2 2.3.3 is the recorded IDN oracle.")
 P = {
- "C01": ("proof", "Theorems: translator tie (error enum, EAV_RFC enum, eav_setup table, limits). Model isEmail mirrors basic_email_check/check_tld/check_ip; K compares model and library on every observable; S compares the high-level call with the composition of the public per-part validators written from the property text, the API path after eav_setup(mode), and the four always-rejected shapes. The unbounded composition theorem (email_iff) is not finished: partial.",
-         "Lean 4 proof (translator-tie theorems by kernel evaluation) + differential correspondence model/library + composition oracle", "7 C01"),
- "C02": ("proof", "Declarative grammar word *(\".\" word) (Spec/Local.lean) with an executable recogniser; K: scanners vs model in three modes; S: library decision vs the grammar recogniser on every generated string. Theorems so far: translator tie (specials case lists, codes). scanner = recogniser = grammar for all strings: in progress (partial).",
-         "Lean 4 proof + differential correspondence + grammar recogniser as oracle", "7 C02"),
- "C03": ("proof", "Strict UTF-8 specified as 'encoding of scalar values' (Spec/Utf8.lean), decoder model + 6531 scanner model; S: library vs (spec decoder ; collapse ; 5321 grammar with non-ASCII symbols), pure-ASCII agreement with mode 5321, a.X.b for non-ASCII X. Unbounded theorems in progress (partial).",
-         "Lean 4 proof + differential correspondence + spec decoder/grammar as oracle", "7 C03"),
- "C04": ("proof", "HostOk (labels, 63/253, root dot, not all-numeric) with executable form; K: is_ascii_domain vs model incl. the byte at *end; S: library vs specHost for default and underscore builds, and mode 6531 acceptances checked on the A-label libidn2 produced. host_iff theorem: in progress (partial).",
-         "Lean 4 proof + differential correspondence + host-name spec as oracle", "7 C04"),
- "C05": ("proof", "Sandwich specification: upper bound (RFC 4291 / four octets, optional IPv6: tag, nothing after the bracket), lower bound (RFC 5321 4.1.3 productions, 1-3 digit octets, non-zero first octet), family; K: is_ipv4/is_ipv6/is_ipaddr and whole addresses vs model; S: accept => upper, lower => accept, flag = family, four modes. Unbounded theorems in progress (partial).",
-         "Lean 4 proof + differential correspondence + sandwich spec as oracle", "7 C05"),
- "C06": ("proof", "partial: model-level facts (every eav_t field written by eav_init, label copies bounded by the generated LABEL_SIZE and length filters, loops are structural recursions hence terminate in <= n steps) are theorems; what the compiled C reads/writes is runtime: all correspondence streams run under ASan+UBSan+LSan with exact-size heap inputs and a 0xA5-poisoned heap eav_t, 64 KiB inputs, valgrind memcheck (thorough), callgrind instruction counts for doubling lengths (linear work).",
-         "Lean 4 proof (init/limits tie) + sanitizer-instrumented differential runs + callgrind linearity", "7 C06"),
+ "C01": ("proof", "Proved for all byte strings (email_iff): accepted <=> L@D with the split at the LAST '@', 1 <= |L| <= 64, L valid for the mode, D valid for the mode; always_rejected, rc_nonpos_off, setup_selects_mode, eavIsEmail_spec; translator tie (error enum, EAV_RFC enum, eav_setup table, limits). K compares model and library on every observable; S compares the high-level call with the composition of the public per-part validators written from the property text, the API path after eav_setup(mode), and the always-rejected shapes.",
+         "Lean 4 proof (induction; translator-tie theorems by kernel evaluation) + differential correspondence model/library + composition oracle", "7 C01"),
+ "C02": ("proof", "Proved for all byte strings in three modes: C-shaped scanner <=> recogniser <=> declarative grammar word *(\".\" word) with quoted items, folding (822) and the RFC 5322 blank rule (specLocal_iff, is5321/822/5322Local_iff, local_iff_*, no_high_byte, no_leading_dot); specials case lists tied to the source. K: scanners vs model; S: library decision vs the grammar recogniser on every generated string, and through one eav_t switched across modes.",
+         "Lean 4 proof (simulation scanner/recogniser, grammar equivalence) + differential correspondence + grammar recogniser as oracle", "7 C02"),
+ "C03": ("proof", "Proved for all byte strings: decoder <=> strict UTF-8 as 'encoding of scalar values' (decodeNext_sound/complete, decAll_iff), 6531 scanner <=> (decode ; collapse non-ASCII ; 5321 grammar) (local6531_iff), invalid_utf8_rejected, ascii_agrees_5321, nonascii_between_dots. K/S incl. all 1-2-byte sequences, 3/4-byte covers, bytes at *end.",
+         "Lean 4 proof (well-founded induction on the decoder, simulation) + differential correspondence + spec decoder/grammar as oracle", "7 C03"),
+ "C04": ("proof", "Proved for all NUL-free strings, with and without LABELS_ALLOW_UNDERSCORE: is_ascii_domain accepts <=> HostOk (labels of letters/digits/inner hyphens, 1-63, total <= 253, optional root dot, not all-numeric) (domLoop_ok loop invariant, host_iff, host6531_sound). K incl. the byte at *end; S vs specHost for default and underscore builds, 6531 acceptances checked on the A-label libidn2 produced.",
+         "Lean 4 proof (loop invariant) + differential correspondence + host-name spec as oracle", "7 C04"),
+ "C05": ("proof", "Proved for all NUL-free strings: inside a literal is_ipv4 = exactly four decimal octets 0-255 with single dots and non-zero first octet (isIpv4_literal, loop invariant ipv4Loop_eq); is_ipv6 accepts only RFC 4291 textual addresses (isIpv6_upper) and accepts every RFC 5321 4.1.3 address (isIpv6_lower); check_ip accepts only '[' addr ']' with nothing after the bracket and no tag other than IPv6: (literal_upper), accepts the promised set (literal_lower), reports the family present (literal_family), identically in the four modes (literal_every_mode). Partial in one respect: the theorems use the inductive grammars IsV6_4291/IsV6_5321; the executable forms evaluated by S are not yet proved equal to them. K: is_ipv4/is_ipv6/is_ipaddr and whole addresses vs model; S: accept => upper, lower => accept, flag = family.",
+         "Lean 4 proof (loop invariants for the two Postfix scanners against inductive grammars) + differential correspondence + sandwich spec as oracle", "7 C05"),
+ "C06": ("proof", "Proved at model level for every NUL-free input and every legal call sequence: no modelled function reads past the terminator, label copies stay inside label[64], no NULL callback is called, abort() is unreachable, no dead block is freed, every is_*_email returns a record (isAsciiDomain_ok ... isEmail_ok, step_isEmail_ok, copyLabel_take, errcode_lt_max, C13 ledger); termination is checked by Lean (structural / well-founded recursion, <= n steps). Partial: what the compiled C reads/writes is runtime - all correspondence streams run under ASan+UBSan+LSan with exact-size heap inputs and a 0xA5-poisoned heap eav_t, 64 KiB inputs, valgrind memcheck (thorough), callgrind instruction counts for doubling lengths (linear work).",
+         "Lean 4 proof (no-fault theorems over the fault-aware model) + sanitizer-instrumented differential runs + callgrind linearity", "7 C06"),
  "C07": ("proof", "Proved for all labels: isTld = first row of the compiled table whose name equals the lower-cased label (whole label, never prefix/suffix: the length field is strlen+1 for all 1591 rows), = the class data/punycode.csv dictates (isTld_eq_csv); table regenerated from the tree every run. K/S: all rows x case variants, prefixes, extensions, substitutions, unlisted labels, four modes, single-label non-FQDN.",
          "Lean 4 proof (induction + kernel evaluation over the regenerated table) + differential correspondence", "7 C07"),
- "C08": ("proof", "Policy arms modelled (policyArm) and compared with the library over the complete finite domain every run: all 2^11 masks x every result code -35..12 through a caller-installed callback, plus real addresses x masks x modes x tld on/off; eav_init defaults by translator-tie theorem init_values. Kernel-level policy_iff theorem in progress.",
-         "Lean 4 proof (translator tie) + exhaustive enumeration of the finite policy domain against the library", "7 C08"),
- "C09": ("proof", "Reserved (RFC 2606/6761/7686) specified on whole labels; reserved[]/example[]/length filters tied by theorem to the source; K: is_special_domain vs model; S: library vs spec on every reserved suffix, one-edit neighbours, case patterns, 0-3 preceding labels of all lengths. special_iff theorem in progress (partial).",
-         "Lean 4 proof (translator tie) + differential correspondence + reserved-domain spec as oracle", "7 C09"),
- "C10": ("proof", "partial: the IDNA2008 half is an oracle. The libeav half is the model with the conversion as a parameter; S: for every domain libidn2 converts on this run, the U-label and A-label spellings get the same decision/class/flags in mode 6531 and the ASCII modes agree on the A-label; conversion errors reject; all-ASCII domains: 6531 accepts only what ASCII modes accept. Hypotheses H_same/H_ascii validated per recorded conversion.",
-         "Lean 4 model with IDN oracle parameter + differential correspondence; conditional theorems in progress", "7 C10"),
+ "C08": ("proof", "Proved: accept <=> bit class+1 of the mask for any mask (policy_iff), own_bit_only, negative_rc_any_mask, mask_irrelevant_unless_class, abort_only_outside_classes, init_defaults (translator tie). The library is compared over the complete finite domain every run: all 2^11 masks x every result code -35..12 through a caller-installed callback, plus real addresses x masks x modes x tld on/off.",
+         "Lean 4 proof + exhaustive enumeration of the finite policy domain against the library", "7 C08"),
+ "C09": ("proof", "Proved for every domain with non-empty labels: is_special_domain <=> Spec.reserved (whole labels: test, example, invalid, localhost, onion as last label, example.{com,net,org} as last two) (special_iff, special_iff_host), copies stay inside label[64] (copyLabel_take); reserved[]/example[]/length filters tied by theorem to the source. K: is_special_domain vs model; S: every reserved suffix, one-edit neighbours, case patterns, 0-3 preceding labels of all lengths.",
+         "Lean 4 proof (walker lemmas, table evaluation) + differential correspondence + reserved-domain spec as oracle", "7 C09"),
+ "C10": ("proof", "Conditional theorems, the IDNA2008 conversion being an oracle (partial): the verdict depends on the domain only through the conversion (same_conversion_same_outcome); host-name and TLD tests are case-insensitive (isAsciiDomain_lower, checkTld_lower); under H_ascii mode 6531 and the ASCII modes give the same code and, when accepted, the same record (utf8_as_ascii, ascii_modes_agree); a refusal is the IDN error (refusal_is_idn_error). S: for every domain libidn2 converts on this run, U-label and A-label spellings get the same decision/class/flags, conversion errors reject; H_same/H_ascii validated per recorded conversion.",
+         "Lean 4 proof with the IDN conversion as a parameter + differential correspondence with recorded conversions", "7 C10"),
  "C11": ("proof", "Proved by kernel evaluation on data regenerated every run: csv.map genRow = compiled table (1591 rows), names strictly sorted hence distinct, lower-case LDH, length = strlen+1, classes in 1..9, raw.csv/punycode.csv same rows, tld-domains.txt = name.name; with C07.isTld_eq_csv every row is found with its documented class and nothing else is found. Generators executed on the shipped CSVs and compared byte for byte (a test, Text::CSV stand-in).",
          "Lean 4 proof by kernel evaluation over regenerated tables + execution of the generator programs", "7 C11"),
- "C12": ("proof", "K per mode; S: pairwise comparison of the four modes on quote-free pure-ASCII addresses (decision and code, IDN error excepted), inclusion 5321 in 822, shared domain verdict/class/flags of the ASCII modes. Theorems (unquoted_same, incl_5321_822) in progress (partial).",
-         "Lean 4 proof (translator tie) + differential correspondence + cross-mode comparison", "7 C12"),
- "C13": ("proof", "State-machine model of eav_t with heap ledger (Eav/Api.lean); K: whole call histories model vs library; S: every eav_is_email outcome compared with a fresh object given (confirmed mode, tld_check, allow_tld, address), errstr describes the latest call, LeakSanitizer at exit. History-induction theorems in progress (partial).",
-         "Lean 4 proof (translator tie for init/setup) + differential correspondence on call histories", "7 C13"),
+ "C12": ("proof", "Proved: quote-free pure-ASCII local parts get the same code in all four modes (unquoted_same), 5321 included in 822 (incl_5321_822, isLocal_mono), the ASCII modes share the domain verdict/class/flags (hostPart_shared, domain_verdict_shared). K per mode; S: pairwise comparison of the four modes.",
+         "Lean 4 proof + differential correspondence + cross-mode comparison", "7 C12"),
+ "C13": ("proof", "State-machine model of eav_t with heap ledger (Eav/Api.lean). Proved by induction over call histories: ledger invariant for every reachable state (inv_init, inv_setup, inv_settings, run_inv), every outcome is a function of (confirmed mode, tld_check, allow_tld, address, IDN answer) (isEmail_outcome), errstr_latest, failed_setup_keeps_mode, free_releases, reinit_ok, lifecycle_releases. K: whole call histories model vs library; S: outcomes compared with a fresh object, LeakSanitizer at exit.",
+         "Lean 4 proof (invariant by induction over operations) + differential correspondence on call histories", "7 C13"),
  "C14": ("proof", "partial: proved - no object with static storage in a writable section (objdump of the tree's objects, regenerated every run), external symbols within a reentrant whitelist, and sched_indep: in the model every interleaving gives each thread the observations of its own sequential run. Runtime half: ThreadSanitizer build, 2-16 threads, outcomes compared with the sequential run.",
          "Lean 4 proof (schedule independence over a model whose shared state is read from the object files) + ThreadSanitizer", "7 C14"),
- "C15": ("proof", "errors[] tags/order/non-emptiness/distinctness and eav_setup table are theorems over regenerated data; S: every produced (code, message) checked against the code's predicate on the input (35 codes), ret=1 iff no error, IDN message for IDN code, invalid-RFC path. Per-code soundness theorems in progress (partial).",
-         "Lean 4 proof (errors table, setup table) + differential correspondence + per-code predicates", "7 C15"),
- "C16": ("proof", "K on every result field incl. EAV_EXTRA strings; S: at most one flag, flag matches the form of the domain, none when syntactically invalid, rc shape, lpart/domain byte for byte. Record lemmas in progress (partial).",
-         "Lean 4 proof (translator tie) + differential correspondence over two builds", "7 C16"),
- "C17": ("proof", "Makefile defaults OFF and the ON->-D mapping, and the per-option case lists, are theorems over regenerated data; every option build (4 quick / all 8 thorough) is built with the repository Makefile and compared with the default build and with the model carrying the same options. rfc20_iff / underscore_iff theorems in progress (partial).",
-         "Lean 4 proof (build-option tie) + differential correspondence over all option builds", "7 C17"),
- "C18": ("proof", "The three partial/<backend> source sets are compiled against shim headers onto one converter; S: identical outcomes on addresses and call histories, idnkit context create/destroy counters balanced; model ledger for resconf compared. backends_agree theorem in progress (partial).",
-         "Lean 4 model with Backend parameter + differential correspondence across three back-end builds", "7 C18"),
- "C19": ("proof", "Model takes the conversion result as a parameter of each call; K/S: every libidn2 error code x with/without output buffer x position, random multi-fault histories; rejected with IDN code and that library's message, no flag, next call unaffected, LSan. Containment theorems in progress (partial).",
-         "Lean 4 model with per-call IDN oracle + fault injection via --wrap + differential correspondence", "7 C19"),
- "C20": ("proof", "partial: trimming and rendering modelled (Eav/Cli.lean) and compared with the real binary (ASan+UBSan+LSan) on line shapes x terminators x final newline and random files; verdicts compared with the library. stdio/getline/process exit are runtime.",
-         "Lean 4 model of the tool + differential correspondence against the real binary", "7 C20"),
+ "C15": ("proof", "Proved: verdict_shape, code_origin, lpart_code_sound (a local-part code only for a local part invalid for the mode), too_many_dots_sound, domain_code_sound, rc_lower, errcode_lt_max; errors[] tags/order/non-emptiness/distinctness and the eav_setup table are theorems over regenerated data. S: every produced (code, message) checked against the code's predicate on the input (35 codes), ret=1 iff no error, IDN message for IDN code, invalid-RFC path.",
+         "Lean 4 proof (per-code soundness; errors table by kernel evaluation) + differential correspondence + per-code predicates", "7 C15"),
+ "C16": ("proof", "Proved: rc_shape, flags (at most one, matches the form of the domain, none when invalid), extra_strings, checkIp_flags, no_abort; with C05 literal_family the IP flag is the family of the address present. K on every result field incl. EAV_EXTRA strings over two builds.",
+         "Lean 4 proof + differential correspondence over two builds", "7 C16"),
+ "C17": ("proof", "Proved: each option leaves every other decision unchanged (ascii_locals_ignore_options, locals_ignore_underscore, domain_ignores_local_options), underscore_iff / underscore_monotone, rfc5322_ascii, utf8_necessary_all_builds, rfc20_no_effect, defaults_off; Makefile defaults and the ON->-D mapping and the per-option case lists are theorems over regenerated data. Partial: 'RFC 20 characters rejected exactly outside quotes' is decided by K/S. Every option build (4 quick / all 8 thorough) is built with the repository Makefile and compared with the default build and with the model carrying the same options.",
+         "Lean 4 proof (option orthogonality, build-option tie) + differential correspondence over all option builds", "7 C17"),
+ "C18": ("proof", "Proved: the back end is unobservable (setupAscii_agree, setup6531_agree, eavSetup_agree, backends_agree by simulation), with C13's ledger for idnkit's resconf. The three partial/<backend> source sets are compiled against shim headers onto one converter; S: identical outcomes on addresses and call histories, idnkit context create/destroy counters balanced.",
+         "Lean 4 proof (simulation across the Backend parameter) + differential correspondence across three back-end builds", "7 C18"),
+ "C19": ("proof", "Proved for any error code, with or without output buffer: idn_failure_rejected, idn_failure_verdict, idn_failure_contained (next call unaffected). The model takes the conversion result as a parameter of each call; K/S: every libidn2 error code x with/without output buffer x position, random multi-fault histories, LSan.",
+         "Lean 4 proof with per-call IDN oracle + fault injection via --wrap + differential correspondence", "7 C19"),
+ "C20": ("proof", "Proved: the getline records partition the file (getlines_flatten, getlinesAux_records) so there is at most one verdict per line in input order (verdicts_le_lines); well-formed UTF-8 without control characters is echoed unchanged and rendering is total on arbitrary bytes (sanitize_clean, echo_unchanged); a plain line is handed to the validator as written for LF/CRLF/no final newline (trim_plain). Partial: stdio/getline/process exit are runtime - trimming and rendering (Eav/Cli.lean) are compared with the real binary (ASan+UBSan+LSan) on line shapes x terminators x final newline and random files; verdicts compared with the library.",
+         "Lean 4 proof over the model of the tool + differential correspondence against the real binary", "7 C20"),
 }
 checks = []
 for pid in sorted(P):
